@@ -38,8 +38,8 @@ const INPUTS: [&str; 20] = [
     "\u{4d0}a",       // 13  U+05D0 xor 2^8: Cyrillic capital (L) + a: invalid if taken for R
     "\u{1d0}a",       // 14  U+05D0 xor 2^10: Latin small letter (L) + a
     "\u{15d0}a",      // 15  U+05D0 xor 2^12: Canadian syllabics (L) + a
-    "\u{c4}",   // 16  A with diaeresis
-    "\u{1ec4}", // 17  = U+00C4 + 30 * 2^8: E with circumflex and tilde
+    "\u{400}",  // 16  Cyrillic capital IE with grave
+    "\u{500}",  // 17  = U+0400 xor 2^8: Cyrillic capital KOMI DE (another cased letter, another mapping)
     "\u{4aa}",  // 18  U+00AA xor 2^10: a PVALID Cyrillic letter (U+00AA itself is input 8)
     "\u{2aa}",  // 19  U+00AA xor 2^9: a PVALID IPA letter
 ];
